@@ -738,6 +738,14 @@ def run_attr(case):
             # a CustomSD has no zeta: the update must simply not matter
             p2 = dict(p)
         fresh = mk(p2) if not (custom and attr == "alpha") else None
+        if custom and attr == "cutoff":
+            # the caller's j-function keeps its own (old) frequency scale;
+            # only the cutoff of the CustomSD object changes
+            a0, z0, wc0 = p["alpha"], p["zeta"], p["cutoff"]
+            fresh = oqupy.CustomSD(
+                lambda w: 2.0 * a0 * w ** z0 * wc0 ** (1 - z0),
+                cutoff=p2["cutoff"], cutoff_type=p["cutoff_type"],
+                temperature=p["temperature"])
         if fresh is not None:
             new_vals = observe(corr)
             exp_vals = observe(fresh)
